@@ -519,6 +519,12 @@ func (x *Unit) interiorAddr(st *State, lv *LV, n ast.Node) T {
 			name := "addr_local_" + mangle(lv.obj.Name())
 			x.u.DeclFun(name, "() Int")
 			return T{name, SInt}
+		case lvGlobal:
+			if lv.obj != nil {
+				name := "addr_local_" + mangle(lv.obj.Name())
+				x.u.DeclFun(name, "() Int")
+				return T{name, SInt}
+			}
 		case lvField:
 			base := x.interiorAddr(st, lv.parent, n)
 			return x.uf(fmt.Sprintf("addr_field_%d", lv.fidx), SInt, base)
@@ -709,7 +715,9 @@ func (x *Unit) unknownCall(st *State, pc *preparedCall, name string, n int) []Va
 		}
 	}
 	if pc.recv != nil && !pc.iface {
-		hv(*pc.recv)
+		if _, boxed := x.boxedLV(pc.recvLV); pc.recvLV == nil || pc.recvLV.kind != lvVar || boxed {
+			hv(*pc.recv) // (a plain local used through an implicit & is only the variable itself, havocked below)
+		}
 		if pc.recvLV != nil {
 			x.writeLV(st, pc.recvLV, x.freshVal(st, "recv", pc.recvLV.typ))
 		}
@@ -726,6 +734,14 @@ func (x *Unit) unknownCall(st *State, pc *preparedCall, name string, n int) []Va
 		}
 	}
 	return x.freshResults(st, pc.sig, callBase(name))
+}
+
+func (x *Unit) boxedLV(lv *LV) (T, bool) {
+	if lv == nil || lv.kind != lvVar || lv.obj == nil {
+		return T{}, false
+	}
+	r, ok := x.boxed[lv.obj]
+	return r, ok
 }
 
 func callBase(name string) string {
